@@ -107,9 +107,13 @@ macro_rules! cut_harness {
     };
 }
 cut_harness!(cuts_a, 0, 1, 2, 3, 4, 10, 18, 19);
-cut_harness!(cuts_b, 20, 21, 22, 23, 30, 37, 38);
-cut_harness!(cuts_c, 5, 6, 7, 8, 9, 11, 12, 13, 14, 15, 16, 17);
-cut_harness!(cuts_d, 24, 25, 26, 27, 28, 29, 31, 32, 33, 34, 35, 36);
+cut_harness!(cuts_b, 20, 21, 37, 38);
+cut_harness!(cuts_b2, 22, 23, 30);
+cut_harness!(cuts_c, 5, 6, 7, 8, 9, 11);
+cut_harness!(cuts_c2, 12, 13, 14, 15, 16, 17);
+cut_harness!(cuts_d, 24, 25, 26, 27);
+cut_harness!(cuts_d2, 28, 29, 31, 32);
+cut_harness!(cuts_d3, 33, 34, 35, 36);
 
 /// one block of 64 zero-width items: the count needs a two-byte varint (0x80 0x01), byte size 0.
 fn region64() -> [u8; 19] {
@@ -178,19 +182,47 @@ macro_rules! marker_harness {
         });
     };
 }
-marker_harness!(marker_first_lo, 0, 0, 1, 2, 3, 4, 5, 6, 7);
-marker_harness!(marker_first_hi, 0, 8, 9, 10, 11, 12, 13, 14, 15);
-marker_harness!(marker_second_lo, 1, 0, 1, 2, 3, 4, 5, 6, 7);
-marker_harness!(marker_second_hi, 1, 8, 9, 10, 11, 12, 13, 14, 15);
+marker_harness!(marker_first_0, 0, 0, 15);
+marker_harness!(marker_first_1, 0, 1, 2);
+marker_harness!(marker_first_2, 0, 3, 4);
+marker_harness!(marker_first_3, 0, 5, 6);
+marker_harness!(marker_first_4, 0, 7, 8);
+marker_harness!(marker_first_5, 0, 9, 10);
+marker_harness!(marker_first_6, 0, 11, 12);
+marker_harness!(marker_first_7, 0, 13, 14);
+marker_harness!(marker_second_0, 1, 0, 15);
+marker_harness!(marker_second_1, 1, 1, 2);
+marker_harness!(marker_second_2, 1, 3, 4);
+marker_harness!(marker_second_3, 1, 5, 6);
+marker_harness!(marker_second_4, 1, 7, 8);
+marker_harness!(marker_second_5, 1, 9, 10);
+marker_harness!(marker_second_6, 1, 11, 12);
+marker_harness!(marker_second_7, 1, 13, 14);
 
 pub const HARNESSES: &[(&str, fn())] = &[
     ("c14::cuts_a", cuts_a::body),
     ("c14::cuts_b", cuts_b::body),
+    ("c14::cuts_b2", cuts_b2::body),
     ("c14::cuts_c", cuts_c::body),
+    ("c14::cuts_c2", cuts_c2::body),
     ("c14::cuts_d", cuts_d::body),
+    ("c14::cuts_d2", cuts_d2::body),
+    ("c14::cuts_d3", cuts_d3::body),
     ("c14::cuts_two_byte_count", cuts_two_byte_count::body),
-    ("c14::marker_first_lo", marker_first_lo::body),
-    ("c14::marker_first_hi", marker_first_hi::body),
-    ("c14::marker_second_lo", marker_second_lo::body),
-    ("c14::marker_second_hi", marker_second_hi::body),
+    ("c14::marker_first_0", marker_first_0::body),
+    ("c14::marker_first_1", marker_first_1::body),
+    ("c14::marker_first_2", marker_first_2::body),
+    ("c14::marker_first_3", marker_first_3::body),
+    ("c14::marker_first_4", marker_first_4::body),
+    ("c14::marker_first_5", marker_first_5::body),
+    ("c14::marker_first_6", marker_first_6::body),
+    ("c14::marker_first_7", marker_first_7::body),
+    ("c14::marker_second_0", marker_second_0::body),
+    ("c14::marker_second_1", marker_second_1::body),
+    ("c14::marker_second_2", marker_second_2::body),
+    ("c14::marker_second_3", marker_second_3::body),
+    ("c14::marker_second_4", marker_second_4::body),
+    ("c14::marker_second_5", marker_second_5::body),
+    ("c14::marker_second_6", marker_second_6::body),
+    ("c14::marker_second_7", marker_second_7::body),
 ];
